@@ -2,7 +2,9 @@
 (* Trace validation of recorded executions of the real pod controller, PodENI controller, its two  *)
 (* collectors and the daemon-side record check (one controller-runtime fake API server, one fake    *)
 (* cloud) against PodEni.tla.  Every observable step is logged with its arguments, so the walk is   *)
-(* linear.  Lines without a specification action (elapse markers, failed writes, reads of records,  *)
+(* linear.  Lines without a specification action (elapse markers, failed writes, failed reads - a   *)
+(* failed read shows the function nothing, so the step may do nothing, but every guard on what it   *)
+(* does next stays in force -, reads of records,                                                    *)
 (* describe calls, "unstable" markers) are consumed without a state change.                          *)
 EXTENDS PodEni, Json, IOUtils, TLCExt
 
@@ -10,7 +12,7 @@ Log == ndJsonDeserialize(IOEnv.VERIF_TRACE)
 VARIABLE l
 
 IsEv(k) == l <= Len(Log) /\ Log[l].ev = k /\ l' = l + 1
-Skipped == {"elapse", "pe_fail", "unstable", "note"}
+Skipped == {"elapse", "pe_fail", "read_fail", "unstable", "note"}
 
 AllocOf(j) == [e |-> j.e, fixed |-> j.fixed, strat |-> j.strat, ttl |-> j.ttl, ip |-> j.ip]
 PeOf(j) == IF ~j.ex THEN NoPe
